@@ -97,6 +97,9 @@ func errDiscipline(r *core.Run, rule string, fns []*core.FuncInfo, ids []idiom) 
 			if matchIdiom(ids, fn, d.Origin.Callee, "dropped") != nil {
 				continue
 			}
+			if logOnlyResult(fn, d.Origin.Call) {
+				continue // the value only feeds a log line: its error carries no outcome of the function
+			}
 			bad[d.Origin] = append(bad[d.Origin], "dropped("+d.Kind+")")
 		}
 		for _, s := range res.Swallows {
@@ -158,4 +161,54 @@ func hasPrefixAny(s string, ps ...string) bool {
 		}
 	}
 	return false
+}
+
+// logOnlyResult: `v, _ := f(..)` (a marshal for a diagnostic) whose value v is used for nothing but arguments of the
+// logging package: whether the call failed changes only what the log line shows.
+func logOnlyResult(fn *core.FuncInfo, call *ast.CallExpr) bool {
+	info := fn.Pkg.TypesInfo
+	var v types.Object
+	ast.Inspect(fn.Decl.Body, func(n ast.Node) bool {
+		as, ok := n.(*ast.AssignStmt)
+		if !ok || len(as.Rhs) != 1 || ast.Unparen(as.Rhs[0]) != ast.Expr(call) || len(as.Lhs) != 2 {
+			return true
+		}
+		if id, ok := as.Lhs[1].(*ast.Ident); !ok || id.Name != "_" {
+			return true
+		}
+		v = core.ObjOf(info, as.Lhs[0])
+		return false
+	})
+	if v == nil {
+		return false
+	}
+	uses, logUses := 0, 0
+	var stack []ast.Node
+	ast.Inspect(fn.Decl.Body, func(n ast.Node) bool {
+		if n == nil {
+			stack = stack[:len(stack)-1]
+			return true
+		}
+		stack = append(stack, n)
+		id, ok := n.(*ast.Ident)
+		if !ok || info.Uses[id] != v {
+			return true
+		}
+		uses++
+		for i := len(stack) - 2; i >= 0; i-- {
+			c, ok := stack[i].(*ast.CallExpr)
+			if !ok {
+				continue
+			}
+			if tv, isConv := info.Types[c.Fun]; isConv && tv.IsType() {
+				continue // string(v)
+			}
+			if f := core.Callee(info, c); f != nil && f.Pkg() != nil && strings.HasSuffix(f.Pkg().Path(), "/pkg/util/log") {
+				logUses++
+			}
+			break
+		}
+		return true
+	})
+	return uses > 0 && uses == logUses
 }
